@@ -339,9 +339,16 @@ def address_case():
              ('tcp:host=a,port=4001;tcp:host=a,port=4002;nonce-tcp:host=a,port=4003,noncefile=/n',
               [('TCP4ClientEndpoint', {'_host': 'a', '_port': 4001}), ('TCP4ClientEndpoint', {'_host': 'a', '_port': 4002}), ('TCP4ClientEndpoint', {'_host': 'a', '_port': 4003})]),
              ('unix:path=/run/a;unix:path=/run/b;unix:abstract=/run/a', [('UNIXClientEndpoint', {'_path': '/run/a'}), ('UNIXClientEndpoint', {'_path': '/run/b'}), ('UNIXClientEndpoint', {'_path': '\0/run/a'})]),
-             ('tcp:host=a,port=1,family=ipv4;tcp:host=b,port=1', [('TCP4ClientEndpoint', {'_host': 'a', '_port': 1}), ('TCP4ClientEndpoint', {'_host': 'b', '_port': 1})])]
-    saved = {k: os.environ.get(k) for k in ('DBUS_SESSION_BUS_ADDRESS', 'DBUS_SYSTEM_BUS_ADDRESS')}
+             ('tcp:host=a,port=1,family=ipv4;tcp:host=b,port=1', [('TCP4ClientEndpoint', {'_host': 'a', '_port': 1}), ('TCP4ClientEndpoint', {'_host': 'b', '_port': 1})]),
+             # unix entries that name their socket by another key of the specification (runtime=yes: $XDG_RUNTIME_DIR/bus; dir= is for
+             # listening only): such an entry never stands for the socket of ANOTHER entry, and the entries after it are still there
+             ('unix:runtime=yes;tcp:host=a,port=1', [('UNIXClientEndpoint', {'_path': '/run/user/verif/bus'}), ('TCP4ClientEndpoint', {'_host': 'a', '_port': 1})]),
+             ('unix:path=/run/a;unix:runtime=yes;unix:path=/run/b', [('UNIXClientEndpoint', {'_path': '/run/a'}), ('UNIXClientEndpoint', {'_path': '/run/user/verif/bus'}), ('UNIXClientEndpoint', {'_path': '/run/b'})]),
+             ('unix:path=/run/a;unix:dir=/tmp;tcp:host=a,port=1', [('UNIXClientEndpoint', {'_path': '/run/a'}), ('TCP4ClientEndpoint', {'_host': 'a', '_port': 1})]),
+             ('unix:dir=/tmp;unix:path=/run/b', [('UNIXClientEndpoint', {'_path': '/run/b'})])]
+    saved = {k: os.environ.get(k) for k in ('DBUS_SESSION_BUS_ADDRESS', 'DBUS_SYSTEM_BUS_ADDRESS', 'XDG_RUNTIME_DIR')}
     try:
+        os.environ['XDG_RUNTIME_DIR'] = '/run/user/verif'
         os.environ['DBUS_SESSION_BUS_ADDRESS'] = 'unix:path=/run/session;tcp:host=s,port=5'
         os.environ.pop('DBUS_SYSTEM_BUS_ADDRESS', None)
         table += [('session', [('UNIXClientEndpoint', {'_path': '/run/session'}), ('TCP4ClientEndpoint', {'_host': 's', '_port': 5})]),
